@@ -62,12 +62,12 @@ def oracle_C10(col):
         col.stats['failing_calls'] += 1
         col.stats['fail:' + op[0]] += 1
         if o.side:
-            col.add(T, 'failed-call-observable', [pre.names, opj(op), o.exc, o.side], pre, op, outcome=o.as_json())
+            col.add(T, 'failed-call-observable', [pre.knames, opj(op), o.exc, o.side], pre, op, outcome=o.as_json())
         sigma = explore.reduced_alphabet(T)
         before = cache.get(T, tuple(pre.hist), sigma)
         after = impl.phi(T, list(pre.hist) + [op], _k(), sigma)
         if before != after:
-            col.add(T, 'failed-call-observable', [pre.names, opj(op), o.exc, diff_path(before, after)], pre, op,
+            col.add(T, 'failed-call-observable', [pre.knames, opj(op), o.exc, diff_path(before, after)], pre, op,
                     difference=first_diff(before, after), outcome=o.as_json())
     return f
 
@@ -99,7 +99,7 @@ def oracle_C11(col):
             removed = [n for n in pre.names]
             for n in st.names():
                 removed.remove(n)
-            col.add(T, 'removal-not-restoring', [pre.names, opj(op), diff_path(b, a)], pre, op, difference=first_diff(b, a),
+            col.add(T, 'removal-not-restoring', [pre.knames, opj(op), diff_path(b, a)], pre, op, difference=first_diff(b, a),
                     twin=[list(x) for x in th], removed=removed)
     return f
 
@@ -115,13 +115,13 @@ def oracle_C16b(col):
         before = cache.get(T, tuple(pre.hist), sigma)
         after = impl.phi(T, list(pre.hist) + [op], _k(), sigma)
         if before != after:
-            col.add(T, 'serialisation-side-effect', [pre.names, opj(op), diff_path(before, after)], pre, op,
+            col.add(T, 'serialisation-side-effect', [pre.knames, opj(op), diff_path(before, after)], pre, op,
                     difference=first_diff(before, after))
         # repeatability on the same object: a second and third call return the same text
         o2 = impl.call(st.el.to_string)
         o3 = impl.call(st.el.to_string)
         if op == ('S', False) and (not o2.ok or o2.value != o.value or not o3.ok or o3.value != o.value):
-            col.add(T, 'nondeterministic', [pre.names, opj(op)], pre, op,
+            col.add(T, 'nondeterministic', [pre.knames, opj(op)], pre, op,
                     observed=[o.value, o2.value if o2.ok else o2.exc, o3.value if o3.ok else o3.exc])
     return f
 
